@@ -391,7 +391,7 @@ UNIT = {
         blob("parse_tls_handshake_msg_serverdone", "ServerDone"),
         blob("parse_tls_handshake_msg_certificateverify", "CertificateVerify"),
         blob("parse_tls_handshake_msg_finished", "Finished"),
-        # ClientKeyExchange: a function RETURNING the parser closure.  R17: return type `impl FnMut` -> `impl Fn` (the closure
+        # ClientKeyExchange: a function RETURNING the parser closure.  R16: return type `impl FnMut` -> `impl Fn` (the closure
         # captures `len` by copy and mutates nothing: rustc accepts the same body at the stronger type); R9/R10 for the closures
         {"file": F_HS, "kind": "fn", "name": "parse_tls_clientkeyexchange", "returns": "f",
          "subst": [
